@@ -770,8 +770,11 @@ pub fn gen_styled(rng: &mut Rng, cfg: &GenCfg, which: Option<usize>) -> Desc {
 /// rectangle with a dotted stroke (the only primitive that implements `StrokeStyle::Dotted`),
 /// sizes up to 60 so that dots of every size class and all four sides appear
 pub fn gen_dotted_rect(rng: &mut Rng) -> Desc {
-    let size = match rng.below(4) {
+    let size = match rng.below(5) {
         0 => (rng.u32r(0, 6), rng.u32r(0, 6)),
+        // display-scale sides (dozens of dots per side: accumulated spacing errors show there)
+        4 if rng.chance(1, 2) => (rng.u32r(100, 400), rng.u32r(8, 400)),
+        4 => (rng.u32r(8, 400), rng.u32r(100, 400)),
         1 => (rng.u32r(0, 60), rng.u32r(0, 12)),
         2 => (rng.u32r(0, 12), rng.u32r(0, 60)),
         _ => (rng.u32r(0, 60), rng.u32r(0, 60)),
